@@ -999,6 +999,182 @@ def sc_multiaxis(P, which):
     return gen
 
 
+# ---------------------------------------------------------------------------------------------------------------- Dataset
+def var_stub(name, dims, sizes=None):
+    """a Dataset variable as the Dataset-level plumbing sees it: dims, shared axes, and every DimArray operation as a symbolic call on it"""
+    v = Obj(name, types=('DimArray', 'AbstractDimArray', 'AbstractHasAxes'), attrs={'dims': tuple(dims), 'ndim': len(dims), 'attrs': tok('ATTRS_' + name)})
+    v.hooks['open'] = True
+    v.hooks['render'] = lambda o: '%s%s' % (o.name, list(o.attrs['dims']))
+    for m in ('_binary_op', '_rbinary_op', '_unary_op', 'mean', 'sum', 'std', 'var', 'median', 'take_axis', 'sort_axis', 'reindex_axis', 'interp_axis', 'take', 'copy'):
+        v.methods[m] = (lambda m_: lambda itp, o, a, k: Sym('call', '%s.%s' % (o.name, m_), tuple(a), dict(k)))(m)
+    return v
+
+
+def mk_dataset(P, variables, name='DS', axes=None):
+    """abstract Dataset: an ordered mapping name -> variable plus the shared axes; its methods are the library's, interpreted"""
+    dims = []
+    for v in variables.values():
+        for d in v.attrs['dims']:
+            if d not in dims:
+                dims.append(d)
+    sizes = {'x': 3, 'y': 2, 'z': 4}
+    if axes is None:
+        axes = [mk_axis(d, sizes.get(d, 2)) for d in dims]
+        for v in variables.values():
+            v.attrs['axes'] = mk_axes([a for a in axes if a.attrs['name'] in v.attrs['dims']])
+    ds = Obj(name, types=('Dataset', 'AbstractDataset', 'dict'), attrs={'_dict': dict(variables), 'axes': mk_axes(axes), 'attrs': tok('ATTRS_' + name)})
+    ds.hooks['render'] = lambda o: 'DATASET(%s; dims=%s; attrs=%s)' % (', '.join('%s: %s' % (render(k), render(v)) for k, v in o.attrs['_dict'].items()),
+                                                                   [a.attrs['name'] for a in o.attrs['axes'].attrs['_list']], render(o.attrs['attrs']))
+    ds.hooks['getitem'] = lambda itp, o, k: o.attrs['_dict'][k] if (not isinstance(k, (Obj, Sym)) and k in o.attrs['_dict']) else (_ for _ in ()).throw(Raised('KeyError'))
+
+    def setitem(itp, o, k, v):
+        o.attrs['_dict'][k] = v
+    ds.hooks['setitem'] = setitem
+    ds.hooks['iter'] = lambda itp, o: list(o.attrs['_dict'].keys())
+    ds.hooks['length'] = lambda itp, o: len(o.attrs['_dict'])
+    ds.hooks['contains'] = lambda itp, o, k: (not isinstance(k, (Obj, Sym))) and k in o.attrs['_dict']
+    ds.methods['keys'] = lambda itp, o, a, k: list(o.attrs['_dict'].keys())
+    ds.methods['values'] = lambda itp, o, a, k: list(o.attrs['_dict'].values())
+    ds.methods['items'] = lambda itp, o, a, k: list(o.attrs['_dict'].items())
+    ds.methods['to_dict'] = lambda itp, o, a, k: dict(o.attrs['_dict'])
+
+    def copy(itp, o, a, k):
+        c = mk_dataset(P, dict(o.attrs['_dict']), 'copy(%s)' % o.name, axes=[x.methods['copy'](itp, x, [], {}) for x in o.attrs['axes'].attrs['_list']])
+        c.attrs['attrs'] = o.attrs['attrs']
+        return c
+    ds.methods['copy'] = copy
+    ds.attrs['dims'] = None
+    ds.hooks['getattr'] = lambda itp, o, attr: tuple(a.attrs['name'] for a in o.attrs['axes'].attrs['_list']) if attr == 'dims' else \
+        (TypeV('Dataset', ctor=dataset_ctor(P)) if attr == '__class__' else class_methods(P, DS, skip=('keys', 'values', 'items', 'copy', 'to_dict', 'axes', 'attrs', 'dims'))(itp, o, attr))
+    del ds.attrs['dims']
+    ds.hooks['overrides'] = ds_overrides(P)
+    return ds
+
+
+def dataset_ctor(P):
+    def ctor(itp, a, k):
+        src = a[0] if a else {}
+        if isinstance(src, Obj) and '_dict' in src.attrs:
+            src = src.attrs['_dict']
+        items = dict(src) if isinstance(src, dict) else dict(itp.iterate(src))
+        items.update(k)
+        d = Obj('NEWDS', types=('Dataset', 'AbstractDataset', 'dict'), attrs={'_dict': items})
+        d.hooks['render'] = lambda o: 'Dataset(%s)' % ', '.join('%s: %s' % (render(kk), render(vv)) for kk, vv in o.attrs['_dict'].items())
+        d.hooks['getitem'] = lambda itp_, o, kk: o.attrs['_dict'][kk] if kk in o.attrs['_dict'] else (_ for _ in ()).throw(Raised('KeyError'))
+        d.hooks['setitem'] = lambda itp_, o, kk, vv: o.attrs['_dict'].__setitem__(kk, vv)
+        d.hooks['iter'] = lambda itp_, o: list(o.attrs['_dict'].keys())
+        d.hooks['length'] = lambda itp_, o: len(o.attrs['_dict'])
+        d.methods['keys'] = lambda itp_, o, a_, k_: list(o.attrs['_dict'].keys())
+        d.attrs['attrs'] = {}
+        return d
+    return ctor
+
+
+def ds_overrides(P):
+    ov = std_overrides(P)
+    ov['Dataset'] = TypeV('Dataset', ctor=dataset_ctor(P))
+    ov['get_option'] = lambda itp, a, k: {'op.reindex': True, 'indexing.by': 'label'}.get(a[0], Sym('call', 'get_option', tuple(a), {}))
+    ov['isscalar'] = lambda itp, a, k: isinstance(a[0], (int, float, str, bool)) and not isinstance(a[0], (Obj, Sym))
+    return ov
+
+
+def ds_post(itp, r, ds=None):
+    return render(r)
+
+
+def sc_ds_rename_keys(P):
+    out = []
+
+    def DSX():
+        return mk_dataset(P, {'a': var_stub('A', ('x',)), 'b': var_stub('B', ('x', 'y')), 'c': var_stub('C', ('y',))})
+
+    def case(label, mapper, **kw):
+        def mk():
+            ds = DSX()
+            return ([ds, mapper() if callable(mapper) and getattr(mapper, '_factory', False) else mapper], dict(kw),
+                    {'overrides': ds_overrides(P), 'post': lambda itp, r, ds=ds: 'returns %s; operand afterwards %s' % (render(r), render(ds))})
+        out.append((label, mk))
+    for inplace in (None, True, False):
+        kw = {} if inplace is None else {'inplace': inplace}
+        tag = 'default' if inplace is None else 'inplace=%s' % inplace
+        case('rename one key (%s)' % tag, {'b': 'z'}, **kw)
+        case('swap two keys (%s)' % tag, {'a': 'b', 'b': 'a'}, **kw)
+        case('onto a kept key (%s)' % tag, {'a': 'c'}, **kw)
+        case('two keys onto one name (%s)' % tag, {'a': 'z', 'b': 'z'}, **kw)
+        case('unknown key (%s)' % tag, {'q': 'z'}, **kw)
+        case('chain a->b, b->c, c->a (%s)' % tag, {'a': 'b', 'b': 'c', 'c': 'a'}, **kw)
+    fn = ast_lambda('lambda k: k + "2"')
+    case('callable mapper', fn)
+    case('callable mapper, inplace=False', fn, inplace=False)
+    case('a mapper that is neither a dict nor callable', 3)
+    return out
+
+
+def ast_lambda(src):
+    import ast as _ast
+    e = _ast.parse(src, mode='eval').body
+    fn = _ast.FunctionDef(name='<lambda>', args=e.args, body=[_ast.Return(value=e.body)], decorator_list=[], returns=None, type_comment=None, type_params=[])
+    _ast.copy_location(fn, e)
+    _ast.fix_missing_locations(fn)
+    return Fn(fn, {}, None)
+
+
+def sc_ds_rename_axes(P):
+    out = []
+
+    def case(label, mapper, **kw):
+        def mk():
+            ds = mk_dataset(P, {'a': var_stub('A', ('x',)), 'b': var_stub('B', ('x', 'y'))})
+            return ([ds, mapper], dict(kw), {'overrides': ds_overrides(P), 'post': lambda itp, r, ds=ds: 'returns %s; operand afterwards %s' % (render(r), render(ds))})
+        out.append((label, mk))
+    for kw in ({}, {'inplace': False}):
+        tag = 'inplace=False' if kw else 'default'
+        case('rename one axis (%s)' % tag, {'x': 'u'}, **kw)
+        case('swap two axes (%s)' % tag, {'x': 'y', 'y': 'x'}, **kw)
+        case('unknown axis (%s)' % tag, {'q': 'u'}, **kw)
+    case('callable mapper', ast_lambda('lambda d: d + "2"'))
+    case('a mapper that is neither a dict nor callable', 3)
+    return out
+
+
+def sc_ds_ops(P, which):
+    def gen(P):
+        out = []
+        func = tok('FUNC')
+
+        def D1():
+            return mk_dataset(P, {'a': var_stub('A', ('x',)), 'b': var_stub('B', ('x', 'y')), 'c': var_stub('C', ())})
+
+        def D2(keys=('a', 'b', 'c')):
+            return mk_dataset(P, dict((k, var_stub(k.upper() + '2', {'a': ('x',), 'b': ('x', 'y'), 'c': (), 'd': ('y',)}[k])) for k in keys), 'DS2')
+        if which == '_binary_op':
+            out.append(('dataset and scalar', lambda: ([D1(), func, 2], {}, {'overrides': ds_overrides(P)})))
+            out.append(('dataset and dataset, same keys', lambda: ([D1(), func, D2()], {}, {'overrides': ds_overrides(P), 'oracle': lambda s_: True})))
+            out.append(('dataset and dataset, partly other keys', lambda: ([D1(), func, D2(('b', 'd'))], {}, {'overrides': ds_overrides(P), 'oracle': lambda s_: True})))
+            out.append(('dataset and a list (invalid)', lambda: ([D1(), func, [1, 2]], {}, {'overrides': ds_overrides(P)})))
+        elif which == '_rbinary_op':
+            out.append(('scalar and dataset', lambda: ([D1(), func, 2], {}, {'overrides': ds_overrides(P)})))
+        else:
+            out.append(('unary', lambda: ([D1(), func], {}, {'overrides': ds_overrides(P)})))
+        return out
+    return gen
+
+
+def sc_ds_apply(P):
+    out = []
+
+    def D():
+        return mk_dataset(P, {'a': var_stub('A', ('x',)), 'b': var_stub('B', ('x', 'y')), 'c': var_stub('C', ('y',)), 's': var_stub('S', ())})
+    for ax in ('x', 'y', 0, 1, -1, None):
+        out.append(('mean over axis=%r' % (ax,), lambda ax=ax: ([D(), 'mean'], {'axis': ax}, {'overrides': ds_overrides(P)})))
+    out.append(('mean without axis', lambda: ([D(), 'mean'], {}, {'overrides': ds_overrides(P)})))
+    out.append(('sum with an option', lambda: ([D(), 'sum'], {'axis': 'x', 'skipna': True}, {'overrides': ds_overrides(P)})))
+    for name in ('mean', 'std', 'var', 'median', 'sum'):
+        out.append(('Dataset.%s(axis="y")' % name, lambda name=name: ('METHOD', name, [D()], {'axis': 'y'}, {'overrides': ds_overrides(P)})))
+        out.append(('Dataset.%s()' % name, lambda name=name: ('METHOD', name, [D()], {}, {'overrides': ds_overrides(P)})))
+    return out
+
+
 def sc_axes_from(P):
     """Axes.from_shape / from_arrays / from_dict called directly"""
     out = []
@@ -1009,6 +1185,12 @@ SCENARIOS = {
     'dimarray.core.axes._init_axes': (('C05',), sc_init_axes),
     'dimarray.tools.is_array1d_equiv': (('C05',), sc_array1d_equiv),
     'dimarray.core.dimarraycls.DimArray.from_nested': (('C05',), sc_from_nested),
+    'dimarray.dataset.Dataset.rename_keys': (('C13', 'C15'), sc_ds_rename_keys),
+    'dimarray.dataset.Dataset.rename_axes': (('C13',), sc_ds_rename_axes),
+    'dimarray.dataset.Dataset._binary_op': (('C14',), sc_ds_ops(None, '_binary_op')),
+    'dimarray.dataset.Dataset._rbinary_op': (('C14',), sc_ds_ops(None, '_rbinary_op')),
+    'dimarray.dataset.Dataset._unary_op': (('C14',), sc_ds_ops(None, '_unary_op')),
+    'dimarray.dataset.Dataset._apply_dimarray_axis': (('C14',), sc_ds_apply),
     'dimarray.core.axes._flatten': (('C11', 'C05'), sc_flatten_labels),
     'dimarray.core.axes.MultiAxis._get_values': (('C11',), sc_multiaxis(None, '_get_values')),
     'dimarray.core.axes.MultiAxis.values': (('C11',), sc_multiaxis(None, 'values')),
